@@ -109,5 +109,7 @@ let () = register "layout-keywords" (function
       List.iter (fun (w, alts) ->
         List.iter (fun (ws, k) ->
           Printf.fprintf oc "%s %s\n" (text (tok_name k)) (String.concat " " (List.map text (w :: ws)))) alts) multi_table;
+      (* single-word keywords (GenLexer.keyword_table): <TokName> <word> *)
+      List.iter (fun (w, k) -> Printf.fprintf oc "%s %s\n" (text (tok_name k)) (text w)) keyword_table;
       close_out oc
   | _ -> failwith "layout-keywords: <out>")
